@@ -669,7 +669,7 @@ func (val Value) Multiply(other Value) Value {
 	if shortCircuit := mustTypeCheck(Number, Number, val, other); shortCircuit != nil {
 		// If either value is exactly zero then the result must either be
 		// zero or an error.
-		if val == Zero || other == Zero {
+		if val.RawEquals(Zero) || other.RawEquals(Zero) {
 			return Zero
 		}
 		shortCircuit = forceShortCircuitType(shortCircuit, Number)
